@@ -27,8 +27,16 @@ type vRef struct {
 // for hash A, and a symbolic subset of the blobs the ActionResult refers to.
 func vValidatedAC(maxFiles int, withDir bool, withProxy bool) {
 	nFiles := vsym.Choose("files", maxFiles+1)
-	hasStdout := vsym.Choose("stdout", 2) == 1
-	hasStderr := vsym.Choose("stderr", 2) == 1
+	hasStdout, hasStderr := false, false
+	if !withProxy {
+		hasStdout = vsym.Choose("stdout", 2) == 1
+		hasStderr = vsym.Choose("stderr", 2) == 1
+	} else {
+		// backend variant: exactly one or two references, to keep the
+		// schedule exploration small
+		nFiles = 1
+		hasStdout = vsym.Choose("stdout", 2) == 1
+	}
 	hasDir := withDir && vsym.Choose("dir", 2) == 1
 
 	var kinds []cache.EntryKind
